@@ -175,4 +175,39 @@ example (D : Set (Fin 2 → ℝ)) : Measure.map (rotateMap 0 (-1) 1 0 5 7) (volu
   scaling_map_law _ (rotateMap_measurable _ _ _ _ _ _) 1 one_ne_zero ENNReal.one_ne_top
     (fun R => by rw [one_mul]; exact rotation_image_volume 0 (-1) 1 0 5 7 (by norm_num) R) D
 
+/-! ### re-reading the draws: the law does not depend on WHICH uniform draw feeds which coordinate -/
+
+/-- **The law of a sampler is invariant under measure-preserving re-readings of its draws**: if `σ` preserves the law
+    `μ` of the draws, the sampler `f ∘ σ` has the same law as `f`.  (The tape correspondence of `harness/c11.py` therefore
+    accepts an implementation that equals the model parametrisation after reflecting draws `u ↦ 1 − u` and / or permuting
+    the draws of a row — e.g. a sphere height `2u − 1` instead of `1 − 2u`.) -/
+theorem law_of_reparam {α β : Type*} [MeasurableSpace α] [MeasurableSpace β] (μ : Measure α) (σ : α → α) (f : α → β)
+    (hσ : MeasurePreserving σ μ μ) (hf : Measurable f) : Measure.map (f ∘ σ) μ = Measure.map f μ := by
+  rw [← Measure.map_map hf hσ.measurable, hσ.map_eq]
+
+/-- the reflection `u ↦ 1 − u` preserves the uniform law on `[0,1]` -/
+theorem reflect_uniform_mp :
+    MeasurePreserving (fun u : ℝ => 1 - u) (volume.restrict (Icc (0:ℝ) 1)) (volume.restrict (Icc (0:ℝ) 1)) := by
+  have h := (Measure.measurePreserving_sub_left (volume : Measure ℝ) (1:ℝ)).restrict_preimage (measurableSet_Icc (a := (0:ℝ)) (b := 1))
+  have hpre : (fun u : ℝ => 1 - u) ⁻¹' Icc (0:ℝ) 1 = Icc 0 1 := by
+    ext u; simp only [mem_preimage, mem_Icc]; constructor <;> rintro ⟨h0, h1⟩ <;> constructor <;> linarith
+  rwa [hpre] at h
+
+/-- swapping the two draws of a row preserves the uniform law on the unit square -/
+theorem swap_uniform_mp :
+    MeasurePreserving (Prod.swap : ℝ × ℝ → ℝ × ℝ) (volume.restrict (Icc (0:ℝ) 1 ×ˢ Icc (0:ℝ) 1))
+      (volume.restrict (Icc (0:ℝ) 1 ×ˢ Icc (0:ℝ) 1)) := by
+  have h := (Measure.measurePreserving_swap (μ := (volume : Measure ℝ)) (ν := (volume : Measure ℝ))).restrict_preimage
+    ((measurableSet_Icc (a := (0:ℝ)) (b := 1)).prod (measurableSet_Icc (a := (0:ℝ)) (b := 1)))
+  have hpre : (Prod.swap : ℝ × ℝ → ℝ × ℝ) ⁻¹' (Icc (0:ℝ) 1 ×ˢ Icc (0:ℝ) 1) = Icc (0:ℝ) 1 ×ˢ Icc (0:ℝ) 1 := by
+    ext ⟨a, b⟩; simp only [mem_preimage, Prod.swap_prod_mk, mem_prod]; tauto
+  rw [hpre] at h
+  exact h
+
+/-- example: reading the interval sampler with the reflected draw gives the same (uniform) law -/
+example : Measure.map (intervalSample (1:ℝ) 3 ∘ fun u => 1 - u) (volume.restrict (Icc 0 1)) =
+    (ENNReal.ofReal (3 - 1))⁻¹ • volume.restrict (Icc 1 3) := by
+  rw [law_of_reparam _ _ _ reflect_uniform_mp (by unfold intervalSample; fun_prop)]
+  exact interval_law 1 3 (by norm_num)
+
 end TPV.Geom
